@@ -94,6 +94,17 @@ def oracle_one(case: Any, dump: Any) -> List[Dict[str, Any]]:
         return [{'kind': 'abort', 'via': None, 'what': 'the run aborts: %s' % dump['exc']}]
     fn = P.fullnames(case)
     objects, scopes = dump['objects'], dump['scopes']
+    # the defining module exports the name itself: the object stays documented where it is defined
+    moved_away = {(r['D'], r['x']) for r in P.reexports(case)}
+    for r in P.reexports(case, kept=True):
+        if (r['D'], r['x']) in moved_away or r['R'] == r['D']:
+            continue
+        if P.bound_names(case['mods'][r['D']]).count(r['x']) != 1:
+            continue
+        old = fn[r['D']] + '.' + r['x']
+        if old not in objects:
+            fails.append({'kind': 'kept', 'via': None, 'what': '%s is listed in the __all__ of its defining module and imported by '
+                          '%s, but is no longer documented as %s' % (r['x'], fn[r['R']], old)})
     for r in claimed_reexports(case):
         Rn, Dn = fn[r['R']], fn[r['D']]
         new, old = Rn + '.' + r['n'], Dn + '.' + r['x']
